@@ -485,7 +485,13 @@ class Function:
     @classmethod
     def create_task(cls, coro, ast_ctx=None):
         """Create a new task that runs a coroutine."""
-        return cls.hass.loop.create_task(cls.run_coro(coro, ast_ctx=ast_ctx))
+        task = cls.hass.loop.create_task(cls.run_coro(coro, ast_ctx=ast_ctx))
+        #
+        # it's one of ours right away (task.cancel() etc. can come before its first step)
+        #
+        cls.our_tasks.add(task)
+        task.add_done_callback(cls.our_tasks.discard)
+        return task
 
     @classmethod
     def service_register(
